@@ -19,7 +19,7 @@ def groupLines (lines : List (String × Nat × List Step)) : List (String × Nat
 def shJson (sh : Shared) : Json :=
   Json.mkObj [("stack", sh.stackExists), ("count", sh.count),
               ("caps", Json.arr (sh.caps.eraseDups.map fun (c : Nat) => Json.arr #[c, sh.caps.count c]).toArray),
-              ("orig", sh.code.isNone),
+              ("orig", sh.code.isNone), ("info", sh.info),
               ("code", match sh.code with | none => Json.null | some l => Json.arr (l.map fun (x : Nat) => (x : Json)).toArray)]
 
 /-- follow a schedule, reporting which choices were enabled and the shared state after each -/
@@ -38,13 +38,14 @@ def handleRun (j : Json) : Json :=
   let sched := natArr (j.getObjValD "schedule")
   let tool := mergeRelease (toolerLines.map (·.2.2))
   let untool := mergeRelease (untoolerLines.map (·.2.2))
-  let s0 := initState tool untool owns
+  let s0 := initStateB tool untool (bystanderLines.map (·.2.2)) owns
   let fin := exec s0 sched
   Json.mkObj [
     ("steps", Json.arr ((follow s0 sched).map fun (t, en, remaining, sh) =>
-      Json.mkObj [("t", t), ("enabled", en), ("pc", (program tool untool).length - remaining),
+      Json.mkObj [("t", t), ("enabled", en), ("pc", (((s0.threads[t]?).map (·.prog.length)).getD 0) - remaining),
                   ("sh", shJson sh)]).toArray),
     ("finished", finished fin), ("good", good fin),
+    ("raised", Json.arr (fin.threads.map fun th => (th.raised : Json)).toArray),
     ("covered", Json.arr (fin.threads.map fun th => Json.arr (th.covered.map fun (b : Bool) => (b : Json)).toArray).toArray)]
 
 def handle (j : Json) : Json :=
@@ -54,7 +55,7 @@ def handle (j : Json) : Json :=
   let fuel := ((j.getObjVal? "fuel").toOption.bind (·.getNat?.toOption)).getD 200
   let tool := mergeRelease (toolerLines.map (·.2.2))
   let untool := mergeRelease (untoolerLines.map (·.2.2))
-  let s0 := initState tool untool owns
+  let s0 := initStateB tool untool (bystanderLines.map (·.2.2)) owns
   let disc := disciplined tool.flatten false && disciplined untool.flatten true
   let bad := searchBad s0 fuel
   let lineJson (l : List (String × Nat)) := Json.arr (l.map fun (f, n) => Json.arr #[f, n]).toArray
@@ -65,6 +66,7 @@ def handle (j : Json) : Json :=
       | none => Json.null),
     ("tool_lines", lineJson (groupLines toolerLines)),
     ("untool_lines", lineJson (groupLines untoolerLines)),
+    ("bystander_lines", lineJson (bystanderLines.map fun (f, n, _) => (f, n))),
     ("program_length", (program tool untool).length)]
 
 end Ptera.Driver.Sched
